@@ -13,18 +13,18 @@ import pandapower as pp
 from vf import coqrun as cq
 from vf import c17_opf as G
 
-RULE = ("OPF problems on 2-5 bus meshed 20 kV nets with 0-2 gens (gapped indices), sgens, controllable loads, storages, "
+RULE = ("OPF problems (net.sn_mva in {1, 10, 100}, AC and DC) on 2-5 bus meshed 20 kV nets with 0-2 gens (gapped indices), sgens, controllable loads, storages, "
         "0-2 dclines, 15 % of the elements out of service, poly costs (integer/half-integer cp0/cp1/cp2/cq0/cq1/cq2) or "
-        "convex pwl costs (1-3 areas) or both on all six element kinds; non-trivial = at least two cost entries and at "
+        "convex pwl costs (1-3 areas, 75 % with two or more) or both on all six element kinds; non-trivial = at least two cost entries and at "
         "least one entry on a load/storage/dcline or on an element that is out of service")
-ASSUMPTIONS = ["PIPS (AC and DC) is an oracle: only runs reporting success are judged, its exit tolerances are trusted",
+ASSUMPTIONS = ["a DC OPF has no reactive power: reactive cost terms (cq*, pwl of power_type q) are not part of the DC problem (pypower drops the reactive rows) and are left out of the expected sum for rundcopp",
+               "PIPS (AC and DC) is an oracle: only runs reporting success are judged, its exit tolerances are trusted",
                "at a returned optimum each constrained cost variable y equals the maximum of its segment lines (it is minimised)",
                "numpy fancy-index assignment with repeated row indices keeps the last value (modelled as sequential writes)"]
 TRUSTED = ["white-box capture by swapping the module attribute pandapower.optimal_powerflow.opf in the harness process",
-           "python re-implementation of the guards G17/G17q/G17pwl and of the user cost functions (harness/props/c17.py)"]
+           "python re-implementation of the guard of the remaining known finding and of the user cost functions (harness/props/c17.py)"]
 
-KINDS = ["C17-dcline-q-cost-sign", "C17-pwl-areas-not-mirrored", "C17-poly-mixed-with-pwl-keeps-only-cp1",
-         "C17-cq0-dropped-without-q-costs", "C17-pwl-q-cost-on-previous-gen", "C17-dcline-cost-row-by-position"]
+KINDS = ["C17-poly-mixed-with-pwl-keeps-only-cp1"]
 COL = {"cp0": "cp0_eur", "cp1": "cp1_eur_per_mw", "cp2": "cp2_eur_per_mw2", "cq0": "cq0_eur", "cq1": "cq1_eur_per_mvar",
        "cq2": "cq2_eur_per_mvar2"}
 
@@ -72,9 +72,10 @@ def _lk(cap, key):
 
 def env_term(cap):
     return ("{| lk_gen := %s; lk_sgen := %s; lk_load := %s; lk_storage := %s; lk_ext := %s; n_gen_tab := %s; "
-            "dcl_index := %s; ng := %s |}") % (
+            "gen_labels := %s; dcl_index := %s; ng := %s |}") % (
         _lk(cap, "gen"), _lk(cap, "sgen_controllable"), _lk(cap, "load_controllable"), _lk(cap, "storage_controllable"),
-        _lk(cap, "ext_grid"), cq.z(cap["n_gen_tab"]), cq.lst([cq.z(i) for i in cap["dcl_index"]]), cq.nat(len(cap["gen"])))
+        _lk(cap, "ext_grid"), cq.z(cap["n_gen_tab"]), cq.lst([cq.z(i) for i in cap["gen_index"]]),
+        cq.lst([cq.z(i) for i in cap["dcl_index"]]), cq.nat(len(cap["gen"])))
 
 
 def pc_term(c):
@@ -101,7 +102,7 @@ def lookup_value(cap, et, el):
     """what _get_gen_index returns (None / int), re-derived from the captured lookups"""
     if et == "dcline":
         k = cap["dcl_index"].index(el)
-        el = cap["n_gen_tab"] - 2 * len(cap["dcl_index"]) + 2 * k + 1
+        el = cap["gen_index"][cap["n_gen_tab"] - 2 * len(cap["dcl_index"]) + 2 * k + 1]
         et = "gen"
     key = "%s_controllable" % et if et in ("load", "sgen", "storage") else et
     arr = cap["lookups"].get(key)
@@ -115,33 +116,12 @@ def lookup_value(cap, et, el):
 
 
 def failing_guards(cap, pcs, wcs, ac=True):
-    """names of the known-finding guards that are false for this input (mirror of G17q / G17pwl / ... by input)"""
-    Fs = []
+    """names of the known-finding guards that are false for this input"""
     mapped_p = [(c, lookup_value(cap, c["et"], c["el"])) for c in pcs]
-    mapped_w = [(w, lookup_value(cap, w["et"], w["el"])) for w in wcs]
-    qc = any(c["cq1"] != 0 or c["cq2"] != 0 for c in pcs) or any(w["q"] for w in wcs)
-    if not wcs and qc and ac and any(g is not None and c["et"] == "dcline" and c["cq1"] != 0 for c, g in mapped_p):
-        Fs.append(KINDS[0])
-    for w, g in mapped_w:
-        if g is not None and w["et"] in G.NEG and len({p[2] for p in w["pts"]}) > 1:
-            Fs.append(KINDS[1])
+    # poly costs in a net that also has pwl costs keep only cp1 (_add_linear_costs_as_pwl_cost)
     if wcs and any(g is not None and (c["cp0"] != 0 or ((c["cq0"] != 0 or c["cq1"] != 0) and ac)) for c, g in mapped_p):
-        Fs.append(KINDS[2])
-    if not wcs and not qc and ac and any(g is not None and c["cq0"] != 0 for c, g in mapped_p):
-        Fs.append(KINDS[3])
-    if ac and any(g is not None and g >= 1 and w["q"] and len(w["pts"]) >= 2 for w, g in mapped_w):
-        Fs.append(KINDS[4])
-    for c, g in mapped_p + mapped_w:
-        if c["et"] == "dcline":
-            # the element's own row: the from-bus gen is the (2k+1)-th of the trailing auxiliary gens, by POSITION
-            pos = cap["n_gen_tab"] - 2 * len(cap["dcl_index"]) + 2 * cap["dcl_index"].index(c["el"]) + 1
-            label = cap["gen_index"][pos]
-            arr = cap["lookups"].get("gen")
-            own = int(arr[label]) if arr is not None and label < len(arr) else None
-            own = None if (own is not None and own < 0) else own
-            if own != g:
-                Fs.append(KINDS[5])
-    return [k for k in KINDS if k in Fs]
+        return [KINDS[0]]
+    return []
 
 
 # ------------------------------------------------------------------ user cost (the spec), evaluated on result tables
@@ -161,7 +141,8 @@ def own_power(net, et, el):
     return float(r.p_mw.at[el]), float(r.q_mvar.at[el])
 
 
-def user_cost(net, pcs, wcs):
+def user_cost(net, pcs, wcs, ac=True):
+    """sum of the user's functions at the own result powers; a DC OPF has no reactive power (reactive terms are not part of the problem)"""
     tot = 0.0
     for c in pcs:
         if not bool(net[c["et"]].in_service.at[c["el"]]):
@@ -169,11 +150,15 @@ def user_cost(net, pcs, wcs):
         p, qv = own_power(net, c["et"], c["el"])
         if p != p:
             continue
-        tot += c["cp2"] * p * p + c["cp1"] * p + c["cp0"] + c["cq2"] * qv * qv + c["cq1"] * qv + c["cq0"]
+        tot += c["cp2"] * p * p + c["cp1"] * p + c["cp0"]
+        if ac:
+            tot += c["cq2"] * qv * qv + c["cq1"] * qv + c["cq0"]
     for w in wcs:
         if not bool(net[w["et"]].in_service.at[w["el"]]):
             continue
         p, qv = own_power(net, w["et"], w["el"])
+        if w["q"] and not ac:
+            continue
         tot += user_pwl(w["pts"], qv if w["q"] else p)
     return tot
 
@@ -331,7 +316,7 @@ def judge_run(ctx, net, cap, pcs, wcs, ac, tag, desc, terms, pending):
     if not box.get("converged"):
         return
     res_cost = float(net.res_cost)
-    user = user_cost(net, pcs, wcs)
+    user = user_cost(net, pcs, wcs, ac)
     Fg = failing_guards(cap, pcs, wcs, ac)
     xs = box["pg"] + (box["qg"] if (ac and len(cap["gencost"]) == 2 * len(cap["gen"])) else [])
     terms.append(make_term(cap, pcs, wcs, xs, bits=40, dc=not ac))
@@ -390,6 +375,9 @@ def one_case(ctx, net, ac, tag, terms, pending, run_opf=True, sample=False):
     nontriv = (len(pcs) + len(wcs) >= 2) and (any(c["et"] in G.NEG for c in pcs + wcs) or
                                             any(not bool(net[c["et"]].in_service.at[c["el"]]) for c in pcs + wcs))
     ctx.count("%s_costs_%d" % (tag, min(len(pcs) + len(wcs), 6)))
+    ctx.count("sn_mva_%g" % float(net.sn_mva))
+    if any(len(w["pts"]) >= 2 for w in wcs):
+        ctx.count("multi_area_pwl_sn_%g_%s" % (float(net.sn_mva), "ac" if ac else "dc"))
     for c in pcs + wcs:
         ctx.count("entry_" + c["et"])
     if cap.get("error") is not None or "gencost" not in cap:
@@ -485,14 +473,14 @@ def run(ctx):
         ac = mode not in (1, 5)
         if mode == 4:
             # clean convex problems for the exact DC optimum: no dcline, no q cost, all in service
-            net = G.gen_net(rng, pwl=False, oos=0.0, gap=0.0, ndc_max=0, q_cost=False)
+            net = G.gen_net(rng, pwl=False, oos=0.0, gap=0.0, ndc_max=0, q_cost=False, sn_choices=(1.0, 10.0, 100.0))
             ac = False
             for i in net.poly_cost.index:
                 if net.poly_cost.at[i, "et"] in G.NEG:
                     net.poly_cost.at[i, "cp2_eur_per_mw2"] = 0.0
                     net.poly_cost.at[i, "cp0_eur"] = 0.0
         else:
-            net = G.gen_net(rng, pwl=pwl, q_cost=ac)
+            net = G.gen_net(rng, pwl=pwl, q_cost=ac, sn_choices=(1.0, 10.0, 100.0))
         one_case(ctx, net, ac, ("ac" if ac else "dc") + ("_pwl" if pwl else "_poly"), terms, pending, run_opf=True, sample=k < 3)
     finish(ctx, terms, pending)
 
